@@ -127,7 +127,19 @@ func worldGen(tape *simrt.Tape, tier, focus string) *worldCase {
 			c.RunPatterns = append(c.RunPatterns, pat)
 		}
 	} else if focus == "c05" && tape.Bool(1, 4, "runpat") {
-		switch tape.Choose(3, "runpatkind") {
+		switch tape.Choose(4, "runpatkind") {
+		case 3:
+			// two patterns that share a prefix and have a literal and a '*' at the same
+			// position: a name is selected if ANY pattern matches it
+			v := c.Versions[tape.Choose(len(c.Versions), "runpat.version")]
+			p := conformancev1.Protocol(c.Protocols[tape.Choose(len(c.Protocols), "runpat.protocol")])
+			c.RunPatterns = []string{
+				fmt.Sprintf("%s/HTTPVersion:%d/**/c%d", c.suiteName(), v, tape.Choose(c.NCases, "runcase")),
+				fmt.Sprintf("%s/*/Protocol:%s/**", c.suiteName(), p),
+			}
+			if tape.Bool(1, 2, "runpat.swap") {
+				c.RunPatterns[0], c.RunPatterns[1] = c.RunPatterns[1], c.RunPatterns[0]
+			}
 		case 0:
 			c.RunPatterns = []string{fmt.Sprintf("**/c%d", tape.Choose(c.NCases, "runcase"))}
 		case 1:
